@@ -366,3 +366,73 @@ def targets_deferral(tier):
     from pyvc.runner import StaticCheck
 
     return [StaticCheck("robust.deferral_only_while_passes_are_left", check_deferral_budget, note="every defer_node call site is governed by a `pass_num < last_pass` test (source-level frame)")]
+
+
+# ---- data-structure invariant of OverloadedFuncDef established by
+# SemanticAnalyzer.analyze_property_with_multi_part_definition: `setter_index` is None or the position, in the
+# FINAL items list, of the item that carried the `@x.setter` decorator.  (OverloadedFuncDef.setter indexes
+# items[setter_index]; a stale index is an IndexError -- INTERNAL ERROR -- or the wrong item.)  BOUNDED: item
+# lists of up to four entries after the property itself, each either a decorated or a stray plain definition.
+
+import mypy.nodes as N_
+import mypy.semanal as SA
+
+
+def setup_property(I):
+    self = I.make(TObj(SA.SemanticAnalyzer), "self")
+    self.cands = [SA.SemanticAnalyzer]
+    defn = I.new_object(N_.OverloadedFuncDef)
+    n_extra = I.ctx.choose(4, "extra-items") + 1
+    first = I.new_object(N_.Decorator)
+    ffunc = I.new_object(N_.FuncDef)
+    ffunc.fields["_name"] = I.make(TStr(), "prop_name")
+    ffunc.fields["abstract_status"] = I.make(TInt(), "abstract_status")
+    first.fields["func"] = ffunc
+    fvar = I.new_object(N_.Var)
+    first.fields["var"] = fvar
+    items = [first]
+    kinds = []
+    for k in range(n_extra):
+        if I.ctx.choose(2, f"item{k}-decorated?"):
+            it = I.new_object(N_.Decorator)
+            f = I.new_object(N_.FuncDef)
+            it.fields["func"] = f
+            deco = I.new_object(N_.MemberExpr)
+            deco.fields["name"] = SStr(z3.StringVal("setter")) if I.ctx.choose(2, f"item{k}-setter?") else SStr(z3.StringVal("deleter"))
+            it.fields["decorators"] = SList([deco])
+            kinds.append("setter" if z3.is_string_value(simp(deco.fields["name"].t)) and simp(deco.fields["name"].t).as_string() == "setter" else "deleter")
+        else:
+            it = I.new_object(N_.FuncDef)
+            kinds.append("stray")
+        items.append(it)
+    lst = SList(items)
+    defn.fields["items"] = lst
+    defn.fields["setter_index"] = NONE
+    return {"args": [self, defn], "defn": defn, "orig": list(items), "kinds": kinds, "lst": lst}
+
+
+def ens_property(I, env, res):
+    defn = env["defn"]
+    final = env["lst"].items
+    si = defn.fields.get("setter_index")
+    setters = [it for it, k in zip(env["orig"][1:], env["kinds"]) if k == "setter"]
+    strays = [it for it, k in zip(env["orig"][1:], env["kinds"]) if k == "stray"]
+    if any(any(x is s for x in final) for s in strays):
+        return z3.BoolVal(False)  # stray definitions are removed
+    if not setters:
+        return z3.BoolVal(si is NONE or si is None)
+    if not isinstance(si, SInt):
+        return z3.BoolVal(False)
+    idx = concrete_int(simp(si.t))
+    return z3.BoolVal(idx is not None and 0 < idx < len(final) and final[idx] is setters[-1])
+
+
+def targets_property(tier):
+    ov = {"mypy.nodes:FuncDef.accept": noop, "mypy.nodes:Node.accept": noop, "mypy.nodes:MemberExpr.accept": noop,
+          "mypy.semanal:SemanticAnalyzer._is_valid_property_decorator": lambda I, a, k: SBool(z3.BoolVal(True)),
+          "mypy.semanal:function_type": lambda I, a, k: I.new_object(T_.CallableType), "mypy.typeops:function_type": lambda I, a, k: I.new_object(T_.CallableType), "mypy.semanal:SemanticAnalyzer.function_type": lambda I, a, k: SOpaque("fallback"),
+          "mypy.semanal:SemanticAnalyzer.fail": noop, "mypy.semanal:SemanticAnalyzer.get_deprecated": lambda I, a, k: NONE}
+    return [Target("robust.property.setter_index_points_at_the_setter", "mypy.semanal:SemanticAnalyzer.analyze_property_with_multi_part_definition", setup_property,
+                   ensures=[("setter-index-valid-in-the-final-item-list", ens_property)], raises=(), overrides=ov, field_types={},
+                   bounded="a property followed by 1 to 4 further items, each a decorated (setter / deleter) or a stray plain definition",
+                   note="BOUNDED shape; every decorated item has a valid property decorator")]
